@@ -26,7 +26,7 @@ import json,sys
 id,x,res=sys.argv[1:4]
 m=json.load(open(f'/tmp/wt/out/{id}/meta.json'))
 e=m.get(x,{})
-json.dump({"property":id,"variant":x,"summary":e.get("summary"),"needs":e.get("needs"),"failing_input":e.get("failing_input"),
+json.dump({"property":id[:3],"variant":x,"summary":e.get("summary"),"needs":e.get("needs"),"failing_input":e.get("failing_input"),
  "files":e.get("files"),"confirmed":res,
  "what_i_ran":"tools/confirm_seed.sh: scratch worktree of /repo HEAD; demo passes on the clean tree; patch applies; cargo test --offline 94/0 with the patch; demo fails with the patch",
  "caught_by":None},open(f'/verif/seeded/{id}{x}/meta.json','w'),indent=1)
